@@ -79,7 +79,10 @@ def check_ast(case, ev):
     spec = case["model"]
     lv = oracle.spec_leaves(spec)
     ids = sorted(lv)
-    table = list(oracle.box_points(ids, [(0, 1)] * len(ids)))
+    if case.get("points") is not None:
+        table = [dict(zip(ids, p_)) for p_ in case["points"]]        # large formulas: drawn assignments instead of the full table
+    else:
+        table = list(oracle.box_points(ids, [(0, 1)] * len(ids)))
     want = [oracle.spec_value(spec, env) for env in table]
     reals = []
     m = call(build.model, spec, what="constructors")
@@ -248,5 +251,6 @@ def parts(tier):
                    check=check_ast, quick=(6, 150), thorough=(12, 3000)))
     ps.append(Part("negated_thresholds", strategy=lambda t: S.negation_focus_spec(int_leaves=False, depth=2 if t == "quick" else 3)
                    .map(lambda s: {"model": s}), check=check_ast, quick=(2, 200), thorough=(4, 3000)))
+    ps.append(Part("scale", strategy=lambda t: S.scale_case(booleans_only=True, n_points=(14, 22)), check=check_ast, quick=(2, 40), thorough=(4, 600)))
     ps.append(Part("cicje", strategy=lambda t: cicje_case(t), check=check_cicje, quick=(2, 250), thorough=(4, 4000)))
     return ps
